@@ -61,6 +61,16 @@ def cases(tier, seed):
             if layout != 'separate' and len(dev) > 1:
                 continue
             yield {'names': names, 'layout': layout, 'seed': seed}
+    # deep layouts: every component short, the whole path longer than a
+    # single file name may be (255) / than 512 characters
+    for depth in (9, 18):
+        for name in ('plain', "a'b"):
+            yield {'names': {'in': name, 'out': name, 'scr': name},
+                   'layout': 'separate', 'seed': seed, 'depth': depth}
+    # no separate log file requested
+    for name in ('plain', 'a(b)'):
+        yield {'names': {'in': name, 'out': 'plain', 'scr': 'plain'},
+               'layout': 'separate', 'seed': seed, 'no_log_file': True}
 
 
 PUNCT = '\'"()[]{}<>,;:=`'
@@ -115,6 +125,9 @@ def evaluate(case, scratch):
     import cell_type_mapper
     names = case['names']
     root = scratch.new_dir('layout')
+    for k in range(case.get('depth', 0)):
+        root = root / f'level_{k:02d}_of_a_deep_directory_tree'
+    root.mkdir(parents=True, exist_ok=True)
     in_dir = root / 'I' / names['in']
     out_dir = root / 'O' / names['out']
     if case['layout'] == 'input_is_output':
@@ -151,6 +164,8 @@ def evaluate(case, scratch):
             config['tmp_dir'] = str(this_scr)
             if edit is not None:
                 edit(config)
+            if case.get('no_log_file'):
+                config['log_path'] = None
 
         cfg = {'normalization': norm, 'cloud_safe': True,
                'chunk_size': 2, 'n_processors': 2}
@@ -166,7 +181,9 @@ def evaluate(case, scratch):
         n += 1
         desc = (f"dirs in={names['in']!r} out={names['out']!r} "
                 f"scratch={names['scr']!r} layout={case['layout']} "
-                f"outcome={oc}")
+                f"outcome={oc}"
+                + (f" depth={case['depth']}" if case.get('depth') else '')
+                + (' log_path=None' if case.get('no_log_file') else ''))
         if o is None:
             violations.append({'key': 'harness', 'msg': f'{desc}: {err}'})
             continue
@@ -202,8 +219,13 @@ def evaluate(case, scratch):
                         leaks += scan(s, roots, where)
             except Exception as e:
                 leaks.append(f'hdf5 metadata unreadable: {e}')
-        lp = pathlib.Path(config['log_path'])
-        if lp.exists():
+        if config.get('log_path') is None:
+            lp = None
+        else:
+            lp = pathlib.Path(config['log_path'])
+        if lp is None:
+            pass
+        elif lp.exists():
             for i, line in enumerate(lp.read_text().split('\n')):
                 leaks += scan(line, roots, f'log file line {i}')
         elif oc != 'missing_query':
